@@ -12,8 +12,8 @@ cases = None
 if '--cases' in args:
     i = args.index('--cases'); cases = args[i + 1]; del args[i:i + 2]
 manifest = json.load(open(os.path.join(ROOT, 'MANIFEST.json')))
-ids = args or [c['property_id'] for c in manifest['checks']]
-ENGINE_B = {'C17', 'C20'}
+ids = args or ([c['property_id'] for c in manifest['checks']] + ['C19B'])
+ENGINE_B = {'C17', 'C19B', 'C20'}
 bad = 0
 for cid in ids:
     exe = os.path.join(ROOT, 'target', 'b' if cid in ENGINE_B else 'a', 'debug', 'trustsim')
